@@ -767,10 +767,18 @@ class FileScanHelper:
 
         if new_tokens[-1].is_pragma:
             pragma_token = cast(PragmaToken, new_tokens[-1])
-            for pragma_line_number in sorted(pragma_token.pragma_lines.keys())[::-1]:
-                if pragma_line_number > next_replacement.end_token.line_number:
+            # A pragma with the alternate prefix is keyed by its negated line number.
+            # Move the pragmas farthest in the direction of the shift first, so that
+            # no pragma is moved onto one that has yet to be moved.
+            pragma_line_numbers = sorted(pragma_token.pragma_lines.keys(), key=abs)
+            if line_number_delta > 0:
+                pragma_line_numbers.reverse()
+            for pragma_line_number in pragma_line_numbers:
+                if abs(pragma_line_number) > next_replacement.end_token.line_number:
+                    new_line_number = abs(pragma_line_number) + line_number_delta
                     pragma_token.adjust_pragma_line_number(
-                        pragma_line_number, pragma_line_number + line_number_delta
+                        pragma_line_number,
+                        -new_line_number if pragma_line_number < 0 else new_line_number,
                     )
 
         actual_tokens.clear()
